@@ -2,6 +2,7 @@ import SJ.Proofs.Facts
 import SJ.Model.Tape
 import SJ.Proofs.Rebuild
 import SJ.Proofs.WalkSafe
+import SJ.Proofs.GoRebuild
 /-
 C19 — Deserialize never panics on corrupt or truncated bytes.
 -/
@@ -35,5 +36,18 @@ theorem C19_result_walkable (pj : PJ) :
     SJ.WalkSafe.OkOrErr (Iter.marshalBuf pj (Iter.ofPJ pj) #[]) :=
   ⟨SJ.WalkSafe.owalk_safe pj, SJ.WalkSafe.interface_safe pj _ (SJ.WalkSafe.ofPJ_valid pj),
    SJ.WalkSafe.marshalBuf_safe pj _ _ (SJ.WalkSafe.ofPJ_valid pj)⟩
+
+open SJ.GoSem SJ.GoRebuild in
+/-- **The reconstruction loop of the model is the meaning of its Go source.** `Generated.goDeserialize_rebuild` is the
+    syntax tree the translator prints from `Serializer.Deserialize` (from `var off int` to the end of the function) on every
+    run. For every destination tape, every tag and value stream and enough fuel, interpreting it yields exactly
+    `rebuild init tags values`: the same tape and `return dst, nil`, or an error exactly when the model errs; it never
+    panics where the model does not (and the model never panics: `C19_rebuild_no_panic`), is never stuck, never out of fuel.
+    So "Deserialize does not index outside its buffers" is a statement about this source, and any change to the loop
+    breaks this theorem. -/
+theorem C19_rebuild_follows_source (init : Array UInt64) (tags values : Bytes) (hsz : init.size < 2^56) (fuel : Nat)
+    (hf : init.size + 8 ≤ fuel) :
+    SimReb (runFun goFuns goDeserialize_rebuild fuel (rebStore init tags values)) (rebuild init tags values) :=
+  rebuild_source_tie init tags values hsz fuel hf
 
 end SJ.Properties.C19
